@@ -153,7 +153,11 @@ func (s *fakeServer) serve(conn net.Conn) {
 		onCtx := s.onCtx
 		s.mu.Unlock()
 		if s.log != nil {
-			s.log.add(fmt.Sprintf("s%d:%s", s.id, act))
+			la := act
+			if la == "svc0" {
+				la = "svc" // the same outcome; only the error text differs (it is empty)
+			}
+			s.log.add(fmt.Sprintf("s%d:%s", s.id, la))
 		}
 		if s.ctrl != nil {
 			rel := make(chan struct{})
@@ -201,7 +205,11 @@ func (s *fakeServer) respond(conn net.Conn, f *refcodec.Frame, act string, delay
 	h[2] = (h[2] &^ 0x1c) | 0x80 // response, uncompressed
 	var meta []refcodec.KV
 	var payload []byte
-	if act == "svc" {
+	if act == "svc0" {
+		// a service error whose text is empty (errors.New("") in a handler): still a service error
+		h[2] |= 0x01
+		meta = []refcodec.KV{{K: []byte(protocol.ServiceError), V: []byte{}}}
+	} else if act == "svc" {
 		h[2] |= 0x01
 		meta = []refcodec.KV{{K: []byte(protocol.ServiceError), V: []byte(fmt.Sprintf("svc-error-from-s%d", s.id))}}
 	} else { // ok<r>
